@@ -51,6 +51,17 @@ def v_val(r, p):
                      p["v_free"] * 1.1, p["v_free"] * math.exp(-1 / p["a"])))
 
 
+def _fresh(x, rng):
+    """The flow-equation name as a literal, as a string built at run time (a value read from a
+    configuration file is equal to the literal, not identical to it), or as a numpy string."""
+    k = rng.random()
+    if k < 0.4 or not isinstance(x, str):
+        return x
+    if k < 0.8:
+        return "".join(list(x))
+    return np.str_(x)
+
+
 def direct_calls(M, rec, rng, reps):
     import sym_metanet.engines.casadi as EC
     import sym_metanet.engines.numpy as EN
@@ -166,9 +177,9 @@ def direct_calls(M, rec, rng, reps):
                 if eq is None:
                     E.OriginsEngine.get_ramp_flow(*args)
                 elif rng.random() < 0.5:
-                    E.OriginsEngine.get_ramp_flow(*args, eq)
+                    E.OriginsEngine.get_ramp_flow(*args, _fresh(eq, rng))
                 else:
-                    E.OriginsEngine.get_ramp_flow(*args, type=eq)
+                    E.OriginsEngine.get_ramp_flow(*args, type=_fresh(eq, rng))
             elif prim == "get_simplifiedramp_flow":
                 eq = rng.choice(("limited", "unlimited", None))
                 C = rng.uniform(1200, 4500)
@@ -180,14 +191,14 @@ def direct_calls(M, rec, rng, reps):
                 for b in br:
                     rec.seen("branches", b)
                 if eq == "unlimited" and rng.random() < 0.5:
-                    E.OriginsEngine.get_simplifiedramp_flow(s(qd), type="unlimited")
+                    E.OriginsEngine.get_simplifiedramp_flow(s(qd), type=_fresh("unlimited", rng))
                     rec.seen("optional_combos", ("get_simplifiedramp_flow", "qdes-only"))
                 else:
                     args = (s(qd), s(d), s(w), C, p["rho_max"], s(rho[0]), p["rho_crit"], T)
                     if eq is None:
                         E.OriginsEngine.get_simplifiedramp_flow(*args)
                     else:
-                        E.OriginsEngine.get_simplifiedramp_flow(*args, eq)
+                        E.OriginsEngine.get_simplifiedramp_flow(*args, _fresh(eq, rng))
             elif prim == "get_congestion_free_downstream_density":
                 x = rng.choice((rho[-1], p["rho_crit"]))
                 rec.seen("branches", ("dstfree", R._tie(x, p["rho_crit"], "rho", "crit")))
